@@ -39,5 +39,7 @@ def make_specs():
         inner = specs["ssum"].apply(eng, st, [VOpaqueArr(r[0]), VInt(smt.som(r[1] + r[2] * (r[4] - 1))), VInt(1),
                                               VInt(r[3])])
         return inner.t
+    from pvc.iomodel import ghost_specs
+    specs.update(ghost_specs())
     specs["ssum2"] = SpecFn("ssum2", None, REAL, unfold2, "block sum over n1 rows of n2 contiguous elements")
     return specs
